@@ -366,10 +366,17 @@ def main():
                   ("memory", fresh_app, ["/d.dods?q", "/d.ascii?lz", "/d.dods?loc", "/d.dods?x", "/d.ascii?q&q.a>1", "/d.dods?lz.k"])]
         for label_, mk_, reqs_ in kinds_:
             base_c = {u: fetch(mk_(), u) for u in reqs_}
-            for trial in range(8 if T == "quick" else 60):
+            scripted_ = [(reqs_[0], reqs_[1], 2), (reqs_[1], reqs_[0], 1), (reqs_[0], reqs_[0], 3), (reqs_[2], reqs_[4], 2),
+                         (reqs_[4], reqs_[5], 1), (reqs_[0], reqs_[2], 5)]
+            for trial in range((8 if T == "quick" else 60) + len(scripted_)):
                 app_c = mk_()
                 ua, ub = rng.choice(reqs_), rng.choice(reqs_)
                 k_ = rng.choice([1, 2, 3, 5, 8, 16])
+                if trial < len(scripted_):
+                    ua, ub, k_ = scripted_[trial]
+                    # in the middle of the body (the first blocks are the declaration): half or three quarters of its blocks
+                    nblocks_ = len(list(start_body(mk_(), ua)[1]))
+                    k_ = max(1, nblocks_ * (2 if trial % 2 == 0 else 3) // 4)
                 r.count(("interleaved-bodies", label_, ua, ub, k_))
                 try:
                     st_a, it_a = start_body(app_c, ua)
